@@ -14,7 +14,9 @@
 //	x value rotations (every position sees every boundary value of its type, plus two position-tagged rotations)
 //	x both engines,
 //
-// and a representative slice of that product again in six de-aligned module layouts (layout.go).
+// and a representative slice of that product again in six de-aligned module layouts (layout.go), with function
+// listeners (listener.go), with several host modules (multi.go) and in every call form (forms.go: call instruction
+// incl. tail calls x shape of the calling guest frame x entry).
 //
 // Oracle = identity, step by step: what a host function observes equals what was passed to it (i32/f32 on their
 // 32 significant bits), the guest's own comparison of host results with the expected constants says "equal",
@@ -44,6 +46,7 @@ type batchSpec struct {
 	rots  []int
 	lm    int
 	multi *mspec // several-host-modules scenario group (sigs empty)
+	forms int    // call-form batch (forms.go)
 }
 
 func chunk(sigs []*sigT, li int, rots []int, lm int, out []batchSpec) []batchSpec {
@@ -52,14 +55,14 @@ func chunk(sigs []*sigT, li int, rots []int, lm int, out []batchSpec) []batchSpe
 	for _, s := range sigs {
 		sw := len(stylesFor(s)) * (len(rots) + 2) * (len(s.P) + len(s.R) + 3)
 		if len(cur) > 0 && w+sw > 24000 {
-			out = append(out, batchSpec{cur, li, rots, lm, nil})
+			out = append(out, batchSpec{sigs: cur, li: li, rots: rots, lm: lm})
 			cur, w = nil, 0
 		}
 		cur = append(cur, s)
 		w += sw
 	}
 	if len(cur) > 0 {
-		out = append(out, batchSpec{cur, li, rots, lm, nil})
+		out = append(out, batchSpec{sigs: cur, li: li, rots: rots, lm: lm})
 	}
 	return out
 }
@@ -109,7 +112,11 @@ func listenerSlice(thorough bool) []*sigT {
 	return out
 }
 
-func plan(thorough bool) (planOpts, []batchSpec, int, int, int) {
+// formsSlice selects the signatures of the call-form dimension: those of listenerSlice (quick: every cliff and
+// typed signature plus the small slice; thorough: every signature of the quick plan).
+func formsSlice(thorough bool) []*sigT { return listenerSlice(thorough) }
+
+func plan(thorough bool) (planOpts, []batchSpec, int, int, int, int) {
 	o := planOpts{maxP: 3, maxR: 2, maxArity: 20}
 	if thorough {
 		o = planOpts{maxP: 4, maxR: 3, maxArity: 32}
@@ -131,9 +138,16 @@ func plan(thorough bool) (planOpts, []batchSpec, int, int, int) {
 	for lm := lmAll; lm <= lmHostOnly; lm++ {
 		batches = chunk(lsl, 0, layoutRots, lm, batches)
 	}
+	// the call-form dimension (plain layout, tail-call feature enabled)
+	fsl := formsSlice(thorough)
+	flevel := 1
+	if thorough {
+		flevel = 2
+	}
+	batches = chunkForms(fsl, layoutRots, flevel, batches)
 	sigs := enumerateSigs(o)
 	batches = chunk(sigs, 0, allRots, lmNone, batches)
-	return o, batches, len(sigs), len(ls), len(lsl)
+	return o, batches, len(sigs), len(ls), len(lsl), len(fsl)
 }
 
 // childDeadline is the parent's budget deadline (fw.Supervise only polls Stop when it (re)starts a worker, so
@@ -165,9 +179,16 @@ func runCase(batches []batchSpec, i int) (out string) {
 		j, _ := json.Marshal(r.res)
 		return "R " + string(j)
 	}
-	b := newBatch(batches[i].sigs, batches[i].li, batches[i].rots, batches[i].lm)
+	b := newBatch(batches[i].sigs, batches[i].li, batches[i].rots, batches[i].lm, batches[i].forms)
 	r.runBatch(b)
 	u := b.units[len(b.units)/2]
+	if b.forms != 0 {
+		fm := formList[(i*37)%len(formList)]
+		r.res.Sample = map[string]any{"batch": i, "signature": u.sig.String(), "family": u.sig.Fam, "style": u.st.String(), "call_form": fm.dir(), "call_forms_per_unit": len(formList),
+			"rotation": 3, "go_passes": hexs(fm.goParams(u.sig.P, values(u.sig.P, 3, false))), "host_must_see": hexs(values(u.sig.P, 3, false)), "results": hexs(values(u.sig.R, 3, true))}
+		j, _ := json.Marshal(r.res)
+		return "R " + string(j)
+	}
 	r.res.Sample = map[string]any{"batch": i, "signature": u.sig.String(), "family": u.sig.Fam, "style": u.st.String(), "layout": b.layout.Name, "listeners": listenerModes[b.lm],
 		"rotation": 3, "params": hexs(values(u.sig.P, 3, false)), "results": hexs(values(u.sig.R, 3, true)), "directions": allDirs}
 	j, _ := json.Marshal(r.res)
@@ -178,6 +199,14 @@ func layoutNames() []string {
 	o := make([]string, len(layouts))
 	for i := range layouts {
 		o[i] = layouts[i].Name
+	}
+	return o
+}
+
+func frameNames() []string {
+	o := make([]string, len(formFrames))
+	for i := range formFrames {
+		o[i] = formFrames[i].Name
 	}
 	return o
 }
@@ -196,7 +225,7 @@ func main() {
 		return
 	}
 	run := fw.Start("C08", "exploration")
-	opts, batches, nsigs, nLayoutSigs, nLisSigs := plan(run.Thorough())
+	opts, batches, nsigs, nLayoutSigs, nLisSigs, nFormSigs := plan(run.Thorough())
 	if fw.IsChild() {
 		fw.ChildLoop(func(i int) string { return runCase(batches, i) })
 		return
@@ -209,10 +238,14 @@ func main() {
 	sampleAt := map[int]any{}
 	skipped := 0
 	famSigs := map[string]int{}
-	layoutBatches, listenerBatches, multiBatches := 0, 0, 0
+	layoutBatches, listenerBatches, multiBatches, formBatches := 0, 0, 0, 0
 	for _, b := range batches {
 		if b.multi != nil {
 			multiBatches++
+			continue
+		}
+		if b.forms != 0 {
+			formBatches++
 			continue
 		}
 		if b.li != 0 {
@@ -301,16 +334,16 @@ func main() {
 	}
 	run.Finish(fw.Coverage{
 		Evaluations: total.Crossings, DistinctNontriv: total.Nontriv,
-		Rule:    "case = (signature, definition style, engine, direction, value rotation), each executed once on the real runtime; non-trivial = the signature has at least one parameter or result (everything except ()->()); evaluations = individual values compared with the identity oracle at a crossing (host observation, in-guest comparison, echoed result)",
+		Rule:    "case = (signature, definition style, engine, direction or call form, value rotation), each executed once on the real runtime; non-trivial = the signature has at least one parameter or result (everything except ()->()); evaluations = individual values compared with the identity oracle at a crossing (host observation, in-guest comparison, echoed result)",
 		Samples: samples, Exhaustive: true, Outcomes: om,
 		Bounds: map[string]any{
 			"small_signatures": fmt.Sprintf("all parameter lists of length <= %d x all result lists of length <= %d over {i32,i64,f32,f64,externref}", opts.maxP, opts.maxR),
 			"cliff_families":   fmt.Sprintf("all-i32/i64/f32/f64/externref, alternating int/float, int-mix, float-mix for arity 4..%d; 7 ints + k<=10 floats + m<=3 ints; each as params-only, results-only, both, params+2 results, 2 params+results", opts.maxArity),
 			"styles":           len(baseStyles), "typed_closures": len(typedDefs),
-			"directions": allDirs, "deep_const": map[string]int{"growth_boundaries": deepLevels, "window": deepWindow}, "module_layouts": layoutNames(), "layout_rotations": layoutRots, "layout_signatures": nLayoutSigs, "several_host_modules": "2-3 host modules x 3 functions at the same indexes (aligned / rotated signatures) x style combinations; call words of length 2-3 in one guest function, via one reused api.Function, around a callback; direct and call_indirect", "listener_modes": listenerModes, "listener_signatures": nLisSigs, "rotations": nRot, "boundary_rotations": nBoundary, "engines": engines,
+			"directions": allDirs, "deep_const": map[string]int{"growth_boundaries": deepLevels, "window": deepWindow}, "module_layouts": layoutNames(), "layout_rotations": layoutRots, "layout_signatures": nLayoutSigs, "several_host_modules": "2-3 host modules x 3 functions at the same indexes (aligned / rotated signatures) x style combinations; call words of length 2-3 in one guest function, via one reused api.Function, around a callback; direct and call_indirect", "call_forms": map[string]any{"call_instructions": callKinds, "caller_frames": frameNames(), "entries": formEntries, "go_calling_forms": []string{"Call", "CallWithStack"}, "forms_per_unit": len(formList), "signatures": nFormSigs, "rotations": layoutRots, "core_features": "V2 + experimental tail call"}, "listener_modes": listenerModes, "listener_signatures": nLisSigs, "rotations": nRot, "boundary_rotations": nBoundary, "engines": engines,
 			"alphabet_sizes": map[string]int{"i32": len(alpha[tI32]), "i64": len(alpha[tI64]), "f32": len(alpha[tF32]), "f64": len(alpha[tF64]), "externref": len(alpha[tExt])},
 		},
-		Extra: map[string]any{"signatures": nsigs, "signatures_by_family": famSigs, "modules": len(batches) * len(engines) * 2, "batches": len(batches), "layout_batches": layoutBatches, "listener_batches": listenerBatches, "multi_host_batches": multiBatches, "batches_done": done,
+		Extra: map[string]any{"signatures": nsigs, "signatures_by_family": famSigs, "modules": len(batches) * len(engines) * 2, "batches": len(batches), "layout_batches": layoutBatches, "listener_batches": listenerBatches, "multi_host_batches": multiBatches, "call_form_batches": formBatches, "batches_done": done,
 			"host_functions_defined": total.Units, "guest_functions_compiled": total.Funcs,
 			"top_level_calls": total.Calls, "host_function_invocations": total.HostCalls, "cases": total.Cases},
 	}, []string{
@@ -387,7 +420,7 @@ func replay(file string) {
 				li = i
 			}
 		}
-		r.runBatch(newBatch([]*sigT{s}, li, allRots, rp.Lis))
+		r.runBatch(newBatch([]*sigT{s}, li, allRots, rp.Lis, rp.Forms))
 	}()
 	if r.res.Cases == 0 {
 		fw.Fatalf("replay matched no case (style %v not defined for %s)", rp.Style, s)
